@@ -30,8 +30,20 @@ def gen_cases(ctx):
             n = lens[i % len(lens)]
         else:
             n = rnd.choice([rnd.randrange(0, 20), rnd.randrange(0, 300), rnd.randrange(0, 4097)])
-        kind = rnd.randrange(4)
-        if kind == 0:
+        kind = rnd.randrange(5)
+        if kind == 4:
+            # runs of one byte value (0, 0xff, any) of every length class after and between arbitrary pieces: a
+            # data-dependent shortcut (sparse / repeated data) would show here and nowhere in uniform data
+            out = bytearray()
+            while len(out) < n:
+                if rnd.random() < 0.5:
+                    out += bytes([rnd.choice([0, 0, 0, 0xff, rnd.randrange(256)])]) * rnd.choice(
+                        [1, 2, 3, 4, 7, 8, 9, 15, 16, 17, 31, 32, 33, 63, 64, 65, 127, 128, 129, 255, 256, 257, 600])
+                else:
+                    out += bytes(rnd.randrange(256) for _ in range(rnd.choice([1, 1, 2, 5, 30])))
+            bs = bytes(out[:n]) if rnd.random() < 0.5 else bytes(out)
+            n = len(bs)
+        elif kind == 0:
             bs = bytes(rnd.randrange(256) for _ in range(n))
         elif kind == 1:
             bs = bytes([rnd.choice([0, 0xff, 0x80, 1])] * n)
@@ -49,6 +61,42 @@ def gen_cases(ctx):
             rem -= p
         lines.append("crc %d %s %s" % (init, hexs(bs), ",".join(map(str, pieces)) if pieces else "-"))
         meta.append((init, bs, pieces))
+    return lines, meta
+
+
+def gen_extra(ctx):
+    """C-only cases: crcx <align> <init> <hex> <pieces> and crcalias <k> <hex>"""
+    rnd = random.Random(ctx.seed * 104729 + 1717)
+    lines, meta = [], []
+
+    def add(al, n, pieces=None):
+        bs = bytes(rnd.randrange(256) for _ in range(n)) if n < 5000 else rnd.randbytes(n)
+        init = rnd.choice([0, 0xffff, rnd.randrange(65536)])
+        if pieces is None:
+            pieces, rem = [], n
+            for _ in range(rnd.randrange(0, 4)):
+                p = rnd.randrange(0, rem + 1) if rem else 0
+                pieces.append(p)
+                rem -= p
+        lines.append("crcx %d %d %s %s" % (al, init, hexs(bs), ",".join(map(str, pieces)) if pieces else "-"))
+        meta.append((init, bs))
+    for n in range(0, 97):
+        for al in list(range(16)) + [16 + (n * 7 + j * 13) % 48 for j in range(2)]:
+            add(al, n)
+    for n in [4097, 4099, 5000, 6001, 8191, 8192, 8193, 12289, 16383, 16384, 16385, 20011, 32767, 32768, 32769, 40000, 50001, 65533, 65534]:
+        add(rnd.randrange(64), n)
+    for base in (8192 + 64 * rnd.randrange(1, 60), 65536 + 64 * rnd.randrange(1, 40)):
+        for r in range(64):
+            n = base + r
+            # pieces whose lengths run through the residues as well
+            p1 = 8192 + 64 * rnd.randrange(0, 3) + (r * 5 + 3) % 64 if n > 20000 else (r * 3) % 64
+            add((r * 11) % 64, n, [min(p1, n)])
+    for _ in range(60 if ctx.quick else 600):
+        n = rnd.choice([2, 3, 4, 8, 9, 16, 33, 64, 100, 257, 1000])
+        k = 2 * rnd.randrange(0, (n - 2) // 2 + 1)
+        bs = bytes(rnd.randrange(256) for _ in range(n))
+        lines.append("crcalias %d %s" % (k, hexs(bs)))
+        meta.append((None, bs))
     return lines, meta
 
 
@@ -103,11 +151,30 @@ def run(ctx):
                              "expected_bitwise": exp, "how_to_replay": "./check --replay <this file>"})
             elif mm[:2] != cc or mm[2] != exp:
                 mism.append({"case": ln, "c": c, "model": m})
+        # (c) lengths x alignments x residues, and a state variable that lies inside the buffer (C against the bitwise
+        #     reference only; the buffer ends flush with its allocation, so a word-wise over-read is a sanitizer report)
+        xl, xmeta = gen_extra(ctx)
+        xo = run_lines_parallel([cexe], xl)
+        for ln, (init, bs), c in zip(xl, xmeta, xo):
+            cc = c.split()
+            if init is None:            # crcalias: the driver reports the initial state it found in the buffer
+                ok = len(cc) == 2 and len(cc[0]) == 4 and cc[1] == "%04x" % py_crc(int(cc[0], 16), bs)
+                exp = "CRC of the bytes present at the call, from the state stored in them"
+            else:
+                exp = "%04x" % py_crc(init, bs)
+                ok = len(cc) == 2 and cc[0] == exp and cc[1] == exp
+            if not ok:
+                viol.append({"property": PID, "kind": "crc-buffer", "case": ln, "observed": c,
+                             "expected_bitwise": exp, "how_to_replay": "./check --replay <this file>"})
         lens = [len(b) for _, b, _ in meta]
-        cov = {"evaluations": len(lines) + nstate,
+        cov = {"evaluations": len(lines) + nstate + len(xl),
+               "extra": "%d buffers: every length 0..96 at every start alignment 0..15 (and 16..63 in rotation), lengths in "
+                        "4097..65534, every residue modulo 64 of lengths above 8192 and above 65536 with uneven pieces, and %d "
+                        "calls whose state variable lies inside the buffer" % (sum(1 for i, _ in xmeta if i is not None),
+                                                                             sum(1 for i, _ in xmeta if i is None)),
                "distinct_nontrivial": nontriv + nstate,
                "rule": "every 16-bit state x %d byte values (exhaustive in the state; %s), plus %d generated buffers "
-                       "(length 0..4096, four content classes, 0-5 split points incl. empty pieces, 8 alignments); "
+                       "(length 0..4096, five content classes incl. runs of one byte value of lengths 1..600 between arbitrary pieces, 0-5 split points incl. empty pieces, 8 alignments); "
                        "a buffer case is non-trivial when it has >= 2 bytes; distinct by hash of the case line"
                        % (len(bvals), "all 2^24 pairs" if not ctx.quick else "8 byte values", len(lines)),
                "exhaustive": not ctx.quick,
@@ -126,9 +193,14 @@ def replay(payload):
     try:
         cexe = cb.compile("drv_crc", [os.path.join(common.CDIR, "drv_crc.c"), os.path.join(common.REPO, "lib/crc16.c")])
         out, rc, err = common.run_lines([cexe], [payload["case"]])
-        print("case:", payload["case"])
+        print("case:", payload["case"][:300])
         print("observed:", out, "expected:", payload.get("expected_bitwise"))
-        ok = out and all(x == payload.get("expected_bitwise") for x in out[0].split())
+        if payload["case"].startswith("crcalias"):
+            bs = bytes.fromhex(payload["case"].split()[2])
+            cc = out[0].split() if out else []
+            ok = len(cc) == 2 and len(cc[0]) == 4 and cc[1] == "%04x" % py_crc(int(cc[0], 16), bs)
+        else:
+            ok = out and all(x == payload.get("expected_bitwise") for x in out[0].split())
         print("REPRODUCED" if not ok else "not reproduced")
         return 1 if not ok else 0
     finally:
